@@ -23,7 +23,7 @@ ALL_DEVS = ["FirstFromOnly"]
 CFG = """SPECIFICATION %(spec)s
 CONSTANTS
   Devs = {%(devs)s}
-  Families = {"A", "B", "C", "D", "E", "F"}
+  Families = {"A", "B", "C", "D", "E", "F", "G", "H"}
   Gen = %(gen)s
 %(tail)s
 """
@@ -79,7 +79,7 @@ def nontrivial(r):
     xs = [r["mf"]["a"]] + ([f["x"]["a"]] if f["x"]["a"] != "-" else []) + ([f["y"]["a"]] if f["y"]["a"] != "-" else [])
     return r["auth"]["a"] == "none" or any(x != own for x in xs) or r["sender"]["a"] != "-" or \
         any(it["v"] != "plain" for it in (r["auth"], r["mf"], f["x"])) or not r["chk"] or \
-        r["sasl"]["az"] != "empty" or r["nb"] not in ("absent", "none") or r["act"] != "default" or r["fam"] in "EF"
+        r["sasl"]["az"] != "empty" or r["nb"] not in ("absent", "none") or r["act"] != "default" or r["fam"] in "EFGH"
 
 
 def run(ctx, replay):
@@ -130,7 +130,7 @@ def run(ctx, replay):
         def own_mf(x):
             return x["mf"]["a"] == ("peer" if x["auth"]["a"] == "V" else "self")
         rows_ab = [x for x in rows if x["fam"] in ("A", "B")]
-        rows_def = [x for x in rows if x["fam"] in ("D", "E", "F")]   # small families: always run completely
+        rows_def = [x for x in rows if x["fam"] in ("D", "E", "F", "G", "H")]   # small families: always run completely
         rows_c = [x for x in rows if x["fam"] == "C"]
         rows_own = [x for x in rows_ab if own_mf(x)]
         rows_oth = [x for x in rows_ab if not own_mf(x)]
@@ -254,7 +254,11 @@ def run(ctx, replay):
                        "mailboxes x 108 From layouts/styles x 4 Sender; family B: spelling variants x all 7 "
                        "normalisation settings; family C: null/postmaster envelope senders x check_header x SASL mechanism/authzid x "
                        "neighbour check; D: action directives plain/custom reply; E: ToLower-only twins after an entitled envelope "
-                       "sender x every normalisation; F: table.chain mappings); thorough runs every row through the endpoint and the SASL/neighbour-free ones on the check, "
+                       "sender x every normalisation; F: table.chain mappings; G: addresses that differ from an entitled one by an IDNA "
+                       "deviation character (sharp s, final sigma, ZWNJ) as envelope sender / From / Sender x every normalisation; "
+                       "H: user_to_email / prepare_email in a table.file that is edited (revoke, delete line, replace, grant, rewrite) "
+                       "and reloaded between two messages; family A also has four layouts with a repeated From field whose later "
+                       "instance lists further mailboxes); thorough runs every row through the endpoint and the SASL/neighbour-free ones on the check, "
                        "quick a stratified seeded sample of both; non-trivial = unauthenticated, or some address other "
                        "than the user's own, or a Sender, or a non-canonical spelling")
     ctx.cov["open_deviations"] = open_devs
@@ -283,11 +287,13 @@ META = {
     "technique": "TLA+ decision-table spec Authz.tla: TLC enumerates the input space and checks the documented rule against "
                  "the declarative property on every row; the rows drive the real check.authorize_sender and the real "
                  "submission endpoint; AuthzTrace.tla evaluates the property on what the code answered",
-    "text": "TLC enumerates all 127,044 rows (entitlement tables identity/list/domain wildcard/'*'/absent/prepare_email, "
+    "text": "TLC enumerates all 146,180 rows (entitlement tables identity/list/domain wildcard/'*'/absent/prepare_email, "
             "all 7 normalisation settings, user spellings, MAIL FROM, From layouts incl. several fields, groups, display-name "
             "and encoded-word tricks, Sender; null and postmaster envelope senders, check_header yes/no, SASL mechanism and "
             "authorization identity, a quarantining/rejecting neighbour check, action directives with custom SMTP replies, "
-            "mailboxes that only strings.ToLower confuses (U+0130) after an entitled envelope sender, table.chain mappings) "
+            "mailboxes that only strings.ToLower confuses (U+0130) after an entitled envelope sender, table.chain mappings, "
+            "IDNA deviation-character twins of an entitled address, a table.file mapping edited and reloaded between two "
+            "messages, repeated From fields whose later instance lists further mailboxes) "
             "and checks Rule against Prop on each; thorough "
             "runs every row through the real endpoint and every row without SASL/neighbour dimension on the check alone, "
             "quick a stratified seeded sample (about 10,400 + 6,600, the small families completely); TLC evaluates "
